@@ -247,5 +247,5 @@ MANIFEST = {
     "text": "exploration: no disagreement between the library and an independent reader of Cisco ACE syntax over thousands (quick) / hundreds of thousands (thorough) of generated lines covering every address spelling, non-contiguous masks up to 16 bits, all five port operators with names or numbers, flags/log/opaque options, sequence prefixes and whitespace noise, on both platforms, six version strings and all four switch settings",
     "note": "trusted: lib/refsem.py (naive reader, shares no code with cisco_acl) and the any-of flag / 1..65535 port conventions of DESIGN.md 2.3; name tables come from the library (pinned by C09)",
 }
-MANIFEST["engine"] += " + atheris (coverage-guided twins of the Hypothesis sub-checks, fuzz/fuzz_hyp.py: 2 jobs x 8 s quick, 8 jobs x 200 s thorough)"
+MANIFEST["engine"] = MANIFEST.get("engine", "hypothesis") + " + atheris (coverage-guided twins of the Hypothesis sub-checks, fuzz/fuzz_hyp.py: 2 jobs x 8 s quick, 8 jobs x 200 s thorough)"
 MANIFEST["technique"] += "; plus coverage-guided fuzzing of the same strategies (atheris/libFuzzer mutates the byte stream Hypothesis decodes into cases, the same oracle runs inside the target, findings are re-judged outside it)"
